@@ -480,7 +480,334 @@ def check_C06(chk, R, S):
         subproc_matrix.run(chk, scs[:25], R)
 
 
-CHECKS = {"C01": check_C01, "C02": check_C02, "C03": check_C03, "C04": check_C04, "C05": check_C05, "C06": check_C06}
+def check_C07(chk, R, S):
+    chk.rule = ("1-4 nodes x 3 timer names; set/cancel from init, timer, packet and telemetry callbacks, re-entrant "
+                "same-name cancel/set inside the firing handler, ties, past timers; the abstract timer table is replayed "
+                "along the implementation's trace")
+    run_corpus(chk, [M.mon_C07])
+    run_sim_class(chk, "sim-timer-rearm", [gen_rearm(R) for _ in range(S["sims"])], [M.mon_C07])
+    prof = {"p_timer": 1.0, "p_mob": 0.3, "p_assert": 0.0, "acts": ["settimer", "settimer", "cancel", "send", "bcast", "flag"],
+            "trigs": ["init", "timer", "timer", "packet", "telem"], "max_rules": 5}
+    run_sim_class(chk, "sim-timers", gen_many(R, S["sims"], prof), [M.mon_C07])
+    prof2 = dict(prof, p_bounded=1.0, p_mob=0.0, p_steps=0.0)
+    scs = gen_many(R, S["sims"] // 2, prof2)
+    for sc in scs:
+        sc["dur"], sc["maxit"] = None, None
+    run_sim_class(chk, "sim-timers-exhaustion", scs, [M.mon_C07])
+
+
+def check_C08(chk, R, S):
+    chk.rule = ("2-8 nodes all in range on a loss-free medium, delays {<=0, >0}, sends/broadcasts (distinct payloads) from "
+                "every callback kind, bursts, malformed destinations (self, unknown, None); delivered multiset and times "
+                "recomputed from the requests")
+    run_corpus(chk, [M.mon_C08])
+    prof = {"min_nodes": 2, "max_nodes": 8, "p_comm": 1.0, "range": 1000.0, "fails": [0.0, -0.5], "p_assert": 0.0,
+            "acts": ["send", "send", "bcast", "settimer", "goto", "flag"], "bad_send": 0.2, "p_mob": 0.3}
+    run_sim_class(chk, "sim-inrange", gen_many(R, S["sims"], prof), [M.mon_C08])
+    scs = gen_many(R, S["sims"] // 2, dict(prof, p_bounded=1.0, p_mob=0.0, p_steps=0.0))
+    for sc in scs:
+        sc["dur"], sc["maxit"] = None, None
+    run_sim_class(chk, "sim-inrange-exhaustion", scs, [M.mon_C08])
+    run_sim_class(chk, "sim-bursts", [gen_burst(R) for _ in range(S["sims"] // 2)], [M.mon_C08])
+
+
+QUADS = [(1, 2, 2, 3), (2, 3, 6, 7), (1, 4, 8, 9), (4, 4, 7, 9), (2, 6, 9, 11), (6, 6, 7, 11), (3, 4, 12, 13), (2, 10, 11, 15)]
+
+
+def gen_range_scenario(R, lossy=False):
+    """placements incl. exactly-on-the-boundary distances (Pythagorean quadruples scaled by powers of two:
+    every operation exact in doubles), per-node ranges changed at arbitrary times, nodes moving while
+    messages are in flight"""
+    nn = R.randint(2, 5)
+    nodes = []
+    base = (float(R.randint(-4, 4)), float(R.randint(-4, 4)), float(R.randint(0, 3)))
+    rng = R.choice([3.0, 7.0, 9.0, 11.0, 13.0, 15.0, 5.0])
+    sc2 = 2.0 ** R.randint(-2, 2)
+    for i in range(nn):
+        if i == 0:
+            nodes.append({"pos": base, "ty": 0})
+        elif R.random() < 0.5:
+            a, b, c, d = R.choice(QUADS)
+            sg = [R.choice([-1, 1]) for _ in range(3)]
+            per = R.sample([a, b, c], 3)
+            off = R.choice([0.0, 0.0, 2.0 ** -20, -2.0 ** -20])
+            nodes.append({"pos": (base[0] + sg[0] * per[0] * sc2 + off, base[1] + sg[1] * per[1] * sc2, base[2] + sg[2] * per[2] * sc2), "ty": 0})
+            if R.random() < 0.7:
+                rng = d * sc2
+        else:
+            nodes.append({"pos": gen_sim.gen_pos(R, 12), "ty": 0})
+    delay = R.choice([0.0, 0.5, 1.0, 0.25])
+    script = []
+    msg = itertools.count(0)
+    for me in range(nn):
+        rules = []
+        for _ in range(R.randint(1, 4)):
+            acts = []
+            for _ in range(R.randint(1, 4)):
+                x = R.random()
+                others = [i for i in range(nn) if i != me]
+                if x < 0.35:
+                    acts.append(("bcast", next(msg)))
+                elif x < 0.6:
+                    acts.append(("send", next(msg), R.choice(others)))
+                elif x < 0.75:
+                    acts.append(("range", R.choice([0.0, 3.0, 7.0, 9.0, 11.0, 13.0, 15.0, 1.5, 30.0]) * R.choice([1.0, sc2])))
+                elif x < 0.9:
+                    acts.append(("goto",) + gen_sim.gen_pos(R, 12))
+                else:
+                    acts.append(("settimer", R.randrange(2), "rel", R.choice([0.25, 0.5, 1.0])))
+            trig = R.choice([("init",), ("timer", None), ("telem",), ("packet", None), ("telem",)])
+            rules.append({"trig": trig, "nth": None if trig[0] == "init" else R.randrange(5), "acts": acts})
+        script.append(rules)
+    hs = ["T", "C"] + (["M"] if R.random() < 0.7 else [])
+    R.shuffle(hs)
+    sc = {"handlers": hs, "nodes": nodes, "med": (rng, delay, 0.0), "mob": (R.choice([0.25, 0.5, 0.1]), R.choice([2.0, 5.0, 10.0]), (0.0, 0.0, 0.0)),
+          "asserts": [], "seed": R.randrange(1 << 30), "dur": R.choice([2.0, 3.0, 4.5]), "maxit": None, "drv": ("run",), "script": script}
+    return sc
+
+
+def check_C09(chk, R, S):
+    chk.rule = ("3-D placements incl. exact boundary distances (scaled Pythagorean quadruples, +-2^-20 off), per-node ranges "
+                "changed at arbitrary times, delays, nodes moving while messages are in flight; expected receivers "
+                "recomputed from the positions known at send time")
+    run_corpus(chk, [M.mon_C09])
+    scs = [gen_range_scenario(R) for _ in range(S["sims"])]
+    run_sim_class(chk, "sim-range", scs, [M.mon_C09])
+    nb = sum(1 for sc in scs for nd in sc["nodes"][1:] if (M._py_sq(sc["nodes"][0]["pos"], nd["pos"]) == sc["med"][0] ** 2))
+    chk.extra["boundary_pairs"] = nb
+
+
+def gen_loss_scenario(R, exhaustive_pattern=None):
+    nn = R.randint(2, 6) if exhaustive_pattern is None else len(exhaustive_pattern[0]) + 1
+    fail = R.choice([0.1, 0.5, 0.9, 1.0, 0.3]) if exhaustive_pattern is None else exhaustive_pattern[1]
+    script = [[] for _ in range(nn)]
+    msg = itertools.count(0)
+    if exhaustive_pattern is not None:
+        script[0].append({"trig": ("init",), "nth": None, "acts": [("bcast", 0), ("bcast", 1)]})
+        stream = list(exhaustive_pattern[0]) + list(reversed(exhaustive_pattern[0]))
+    else:
+        for me in range(nn):
+            acts = []
+            for _ in range(R.randint(1, 5)):
+                others = [i for i in range(nn) if i != me]
+                acts.append(("bcast", next(msg)) if R.random() < 0.6 else ("send", next(msg), R.choice(others)))
+            script[me].append({"trig": R.choice([("init",), ("init",), ("packet", None)]), "nth": None if R.random() < 0.5 else 0, "acts": acts})
+            if script[me][-1]["trig"][0] == "packet":
+                script[me][-1]["nth"] = R.randrange(2)
+        n_draws = 400
+        stream = [R.choice([0.0, fail, fail + 2.0 ** -40 if fail < 1 else 1.0 - 2.0 ** -53, max(0.0, fail - 2.0 ** -40), 1.0 - 2.0 ** -53,
+                            R.random(), R.random()]) for _ in range(n_draws)]
+    return {"handlers": ["C", "T"], "nodes": [{"pos": (float(i), 0.0, 0.0), "ty": 0} for i in range(nn)],
+            "med": (1000.0, R.choice([0.0, 0.5]), fail), "mob": (1.0, 1.0, (0.0, 0.0, 0.0)), "asserts": [], "seed": 1,
+            "stream": stream, "dur": None, "maxit": None, "drv": ("run",), "script": script}
+
+
+def check_C10(chk, R, S):
+    chk.rule = ("scripted random.random(): ALL keep/drop patterns for broadcasts of up to %d copies at rates {0.5, 1.0}, "
+                "boundary draws {0, rate-, rate, rate+, 1-}; random scripted streams; seeded real generator at rates "
+                "{0, .1, .5, .9, 1}; thorough: frequency test" % (5 if chk.tier == "quick" else 8))
+    run_corpus(chk, [M.mon_C10])
+    pats = []
+    maxc = 5 if chk.tier == "quick" else 8
+    for ncopies in range(1, maxc + 1):
+        for bits in itertools.product([0, 1], repeat=ncopies):
+            for f in (0.5, 1.0):
+                keep = 0.75 if f < 1 else 1.0 - 2.0 ** -53
+                pats.append((tuple(keep if b else 0.25 for b in bits), f))
+    run_sim_class(chk, "loss-patterns-exhaustive", [gen_loss_scenario(R, p) for p in pats], [M.mon_C10])
+    run_sim_class(chk, "loss-scripted-random", [gen_loss_scenario(R) for _ in range(S["sims"])], [M.mon_C10])
+    prof = {"min_nodes": 2, "max_nodes": 6, "p_comm": 1.0, "fails": [0.0, 0.1, 0.5, 0.9, 1.0], "p_assert": 0.0,
+            "acts": ["send", "bcast", "bcast", "settimer", "range"]}
+    run_sim_class(chk, "loss-seeded", gen_many(R, S["sims"], prof), [])
+    chk.exhaustive = True
+    if chk.tier == "thorough":
+        freq_test(chk, R)
+
+
+def freq_test(chk, R):
+    """a test, not a proof: observed loss frequency of the real generator within 6 sigma"""
+    import math
+    from scripted import run_sim_impl
+    for f in (0.1, 0.5, 0.9):
+        nn = 11
+        script = [[{"trig": ("init",), "nth": None, "acts": [("bcast", i) for i in range(200)]}]] + [[] for _ in range(nn - 1)]
+        sc = {"handlers": ["C", "T"], "nodes": [{"pos": (float(i), 0.0, 0.0), "ty": 0} for i in range(nn)],
+              "med": (1000.0, 0.0, f), "mob": (1.0, 1.0, (0.0, 0.0, 0.0)), "asserts": [], "seed": R.randrange(1 << 30),
+              "dur": None, "maxit": None, "drv": ("run",), "script": script, "time_limit": 120.0}
+        from scripted import CTX
+        CTX.limit = 10 ** 6
+        tr, draws = run_sim_impl(sc)
+        CTX.limit = 60000
+        n = 200 * (nn - 1)
+        got = sum(1 for l in tr if " packet " in l)
+        lost = n - got
+        sigma = math.sqrt(n * f * (1 - f))
+        chk.record("loss-frequency", {"rate": f, "copies": n, "lost": lost}, True)
+        if abs(lost - n * f) > 6 * sigma:
+            chk.violation("loss-frequency", {"rate": f, "copies": n, "lost": lost, "seed": sc["seed"]},
+                          ["C10: %d of %d copies lost at configured rate %r (expected %.0f +- %.0f)" % (lost, n, f, n * f, 6 * sigma)])
+
+
+def gen_motion(R):
+    nn = R.randint(1, 3)
+    rate = R.choice([0.5, 1.0, 0.25, 0.1, 0.3])
+    script = []
+    for me in range(nn):
+        rules = [{"trig": ("init",), "nth": None, "acts": ([("goto",) + gen_sim.gen_pos(R, 10)] if R.random() < 0.8 else [])
+                  + ([("speed", R.choice([0.0, 0.5, 1.0, 2.0, 5.0, 10.0, 100.0, R.uniform(0, 20)]))] if R.random() < 0.6 else [])}]
+        for _ in range(R.randint(0, 4)):
+            acts = []
+            for _ in range(R.randint(1, 2)):
+                x = R.random()
+                if x < 0.5:
+                    acts.append(("goto",) + (gen_sim.gen_pos(R, 10) if R.random() < 0.8 else tuple(float(v) for v in (R.randint(-3, 3), R.randint(-3, 3), R.randint(0, 2)))))
+                elif x < 0.9:
+                    acts.append(("speed", R.choice([0.0, 0.5, 1.0, 2.0, 5.0, 10.0, 100.0, R.uniform(0, 20)])))
+                else:
+                    acts.append(("gotogeo", R.uniform(-2e-4, 2e-4), R.uniform(-2e-4, 2e-4), R.uniform(0, 5)))
+            rules.append({"trig": R.choice([("telem",), ("telem",), ("timer", None)]), "nth": R.randrange(12), "acts": acts})
+        if R.random() < 0.4:
+            rules[0]["acts"].append(("settimer", 0, "abs", R.choice([0.3, 0.7, 1.2, 2.0])))
+        rules = [r for r in rules if r["acts"]]
+        script.append(rules)
+    return {"handlers": R.sample(["M", "T"], 2), "nodes": [{"pos": gen_sim.gen_pos(R, 10), "ty": 0} for _ in range(nn)],
+            "med": (60.0, 0.0, 0.0), "mob": (rate, R.choice([1.0, 2.0, 5.0, 10.0]), (0.0, 0.0, 0.0)), "asserts": [],
+            "seed": R.randrange(1 << 30), "dur": R.choice([2.0, 4.0, 6.0, 3.3]), "maxit": None, "drv": ("run",), "script": script}
+
+
+def check_C11(chk, R, S):
+    chk.rule = ("random starts/targets/speeds/update intervals, multi-step trajectories to arrival and beyond, "
+                "retargeting and speed changes at arbitrary ticks (incl. speed 0, integer positions, zero distance); "
+                "positions compared bit-exactly with the model and against the metric clauses")
+    run_corpus(chk, [M.mon_C11])
+    run_sim_class(chk, "sim-motion", [gen_motion(R) for _ in range(S["sims"])], [M.mon_C11])
+
+
+def check_C12(chk, R, S):
+    chk.rule = ("1-6 nodes, static and moving, update intervals {0.25, 0.5, 1, 0.1, 0.3}, durations cutting mid-interval, "
+                "iteration limits cutting mid-update; every telemetry (node, time, position) compared")
+    run_corpus(chk, [M.mon_C12])
+    scs = [gen_motion(R) for _ in range(S["sims"] // 2)]
+    prof = {"p_mob": 1.0, "p_timer": 0.9, "min_nodes": 1, "max_nodes": 6, "p_assert": 0.0}
+    scs += gen_many(R, S["sims"] // 2, prof)
+    run_sim_class(chk, "sim-telemetry", scs, [M.mon_C12])
+
+
+def gen_pair_C13(R):
+    """(with, without): same scenario with and without node-scoped requests of a silent node x"""
+    base = gen_sim.gen_scenario(R, {"min_nodes": 2, "max_nodes": 4, "fails": [0.0], "p_assert": 0.0, "p_steps": 0.0,
+                                    "p_timer": 1.0, "p_comm": 0.9, "p_mob": 0.6})
+    base["maxit"] = None
+    if base["dur"] is None:
+        base["dur"] = R.choice([2.0, 3.0])
+    nn = len(base["nodes"])
+    x = nn - 1 if R.random() < 0.6 else R.randrange(nn)
+    scoped = ["settimer", "cancel", "goto", "speed", "range"]
+    rules = []
+    for _ in range(R.randint(1, 4)):
+        acts = [gen_sim.gen_action(R, {"acts": scoped}, nn, x) for _ in range(R.randint(1, 4))]
+        trig = R.choice([("init",), ("timer", None), ("telem",), ("packet", None)])
+        rules.append({"trig": trig, "nth": None if trig[0] == "init" else R.randrange(4), "acts": acts})
+    with_ = copy.deepcopy(base)
+    with_["script"][x] = rules
+    without = copy.deepcopy(base)
+    mode = "silent"
+    if x == nn - 1 and R.random() < 0.5:
+        without["nodes"].pop()
+        without["script"].pop()
+        mode = "absent"
+        # an absent node cannot be the destination of anybody's unicast
+        for sc in (with_, without):
+            for rs in sc["script"]:
+                for r in rs:
+                    r["acts"] = [a for a in r["acts"] if not (a[0] == "send" and a[2] is not None and a[2] >= nn - 1)]
+            sc["script"] = [[r for r in rs if r["acts"]] for rs in sc["script"]]
+    else:
+        without["script"][x] = []
+    return with_, without, x, mode
+
+
+def check_C13(chk, R, S):
+    chk.rule = ("paired runs: a scenario with and without a sequence of node-scoped requests (set/cancel timer, goto, "
+                "speed, range) by a silent existing node or by one additional node; the other nodes' callbacks, times, "
+                "payloads, positions and request outcomes must be identical in both runs, and both must equal the model")
+    run_corpus(chk, [])
+    pairs = [gen_pair_C13(R) for _ in range(S["sims"])]
+    ra = corr.corr_sims([p[0] for p in pairs])
+    rb = corr.corr_sims([p[1] for p in pairs])
+    for (w, wo, x, mode), a, b in zip(pairs, ra, rb):
+        chk.record("pair:" + mode, {"with": _brief(w), "x": x}, True, gen_sim.features(w, a["impl"]))
+        chk.validated += 2
+        for r in (a, b):
+            if r["diff"] is not None:
+                chk.corr_break("pair:" + mode, r["sc"], r["diff"], extra={"impl": r["impl"][:120], "model": r["model"][:120]})
+        pa, pb = M.project_others(a["impl"], x), M.project_others(b["impl"], x)
+        if pa != pb:
+            qa, qb = M.mask_finish_time(pa), M.mask_finish_time(pb)
+            if qa == qb:
+                chk.violation("pair:" + mode, {"with": _brief(w), "x": x, "tag": "finish-time-is-global-clock"},
+                              ["C13: finish() of the other nodes reports a different time (finish-time-is-global-clock)"])
+            else:
+                d = corr.first_diff(qb, qa)
+                chk.violation("pair:" + mode, {"with": w, "without": wo, "x": x},
+                              ["C13: what the other nodes observe changed when silent node %d issued node-scoped requests: line %d "
+                               "without: %r / with: %r" % (x, d[0], d[1], d[2])])
+        ma = M.mask_finish_time(M.project_others(a["model"], x))
+        mb = M.mask_finish_time(M.project_others(b["model"], x))
+        if ma != mb:
+            chk.violation("pair-model:" + mode, {"with": w, "without": wo, "x": x},
+                          ["C13: the MODEL's other-node projections differ (model-level counterexample)"])
+    # identities
+    from scripted import run_sim_impl
+    for n in (1, 2, 5, 9):
+        sc = {"handlers": ["T"], "nodes": [{"pos": (float(i), 0.0, 0.0), "ty": i % 3} for i in range(n)], "med": (60.0, 0.0, 0.0),
+              "mob": (1.0, 1.0, (0.0, 0.0, 0.0)), "asserts": [], "seed": 1, "dur": None, "maxit": None, "drv": ("run",),
+              "script": [[] for _ in range(n)]}
+        tr, _ = run_sim_impl(sc)
+        chk.record("identities", {"nodes": n}, True)
+        ids = [int(l.split()[1]) for l in tr if l.startswith("cb ") and l.split()[3] == "init"]
+        if ids != list(range(n)) or any(l.startswith("ids ") for l in tr):
+            chk.violation("identities", sc, ["C13: node identifiers seen by the protocols: %s, returned by add_node: 0..%d" % (ids, n - 1)])
+
+
+def gen_assert_scenario(R):
+    sc = gen_sim.gen_scenario(R, {"p_assert": 1.0, "rec_weights": [0, 1, 0], "acts": ["flag", "flag", "settimer", "send", "bcast"],
+                                  "min_nodes": 1, "max_nodes": 3, "p_timer": 1.0, "p_mob": 0.2, "max_rules": 5})
+    hs = [h for h in sc["handlers"] if h not in ("A", "R0")]
+    sc["handlers"] = hs + ["R0", "A"]
+    if R.random() < 0.5:
+        sc["script"][0].insert(0, {"trig": ("init",), "nth": None, "acts": [("flag", True)]})
+    return sc
+
+
+def check_C18(chk, R, S):
+    chk.rule = ("scripted protocols toggling the flag the predicates read; 1-3 nodes of 3 protocol types (one a subclass), "
+                "1-3 assertions of the four kinds, timelines with the first violation at every position incl. zero events; "
+                "expected outcome recomputed from the flag timeline")
+    run_corpus(chk, [M.mon_C18])
+    scs = [gen_assert_scenario(R) for _ in range(S["sims"] * 2)]
+    run_sim_class(chk, "sim-assertions", scs, [M.mon_C18])
+    # small-scope exhaustive: 1 node, timeline of flag values over 3 events x every assertion kind
+    ex = []
+    for bits in itertools.product([0, 1], repeat=4):
+        for kind in (("AP", 0), ("EP", 0), ("ASIM", "all"), ("ESIM", "any"), ("AP", 1), ("EP", 1)):
+            for ty in (0, 1, 2):
+                script = [[{"trig": ("init",), "nth": None, "acts": [("flag", bool(bits[0])), ("settimer", 0, "abs", 1.0), ("settimer", 0, "abs", 2.0), ("settimer", 0, "abs", 3.0)]}]
+                          + [{"trig": ("timer", None), "nth": k, "acts": [("flag", bool(bits[k + 1]))]} for k in range(3)]]
+                ex.append({"handlers": ["T", "R0", "A"], "nodes": [{"pos": (0.0, 0.0, 0.0), "ty": ty}], "med": (60.0, 0.0, 0.0),
+                           "mob": (1.0, 1.0, (0.0, 0.0, 0.0)), "asserts": [kind], "seed": 1, "dur": None, "maxit": None,
+                           "drv": ("run",), "script": script})
+    for kind in (("EP", 0), ("ESIM", "any"), ("AP", 0), ("ASIM", "all")):
+        ex.append({"handlers": ["T", "R0", "A"], "nodes": [{"pos": (0.0, 0.0, 0.0), "ty": 0}], "med": (60.0, 0.0, 0.0),
+                   "mob": (1.0, 1.0, (0.0, 0.0, 0.0)), "asserts": [kind], "seed": 1, "dur": None, "maxit": None,
+                   "drv": ("run",), "script": [[]]})
+    run_sim_class(chk, "assert-timelines-exhaustive", ex, [M.mon_C18])
+    chk.exhaustive = True
+
+
+CHECKS = {"C01": check_C01, "C02": check_C02, "C03": check_C03, "C04": check_C04, "C05": check_C05, "C06": check_C06,
+          "C07": check_C07, "C08": check_C08, "C09": check_C09, "C10": check_C10, "C11": check_C11, "C12": check_C12,
+          "C13": check_C13, "C18": check_C18}
 
 
 def main():
@@ -532,7 +859,8 @@ def replay(chk, path):
     return chk.finish()
 
 
-ALL_SIM_MONS = {"C01": [M.mon_C01], "C02": [M.mon_C02], "C03": [M.mon_C03], "C04": [M.mon_C04_bounds], "C05": [M.mon_C05]}
+ALL_SIM_MONS = {"C01": [M.mon_C01], "C02": [M.mon_C02], "C03": [M.mon_C03], "C07": [M.mon_C07], "C08": [M.mon_C08],
+                "C09": [M.mon_C09], "C10": [M.mon_C10], "C11": [M.mon_C11], "C12": [M.mon_C12], "C18": [M.mon_C18], "C04": [M.mon_C04_bounds], "C05": [M.mon_C05]}
 
 if __name__ == "__main__":
     main()
